@@ -202,6 +202,15 @@ T distribution<T>::standard_deviation() const
 template<class T>
 bool distribution<T>::save(std::ostream &out) const
 {
+  // Non-finite values are printed as `inf` / `nan`, which `load` cannot read
+  // back: better to refuse than to write a stream that cannot be loaded.
+  using std::isfinite;
+  if (!isfinite(mean_) || !isfinite(min_) || !isfinite(max_) || !isfinite(m2_))
+    return false;
+  for (const auto &elem : seen())
+    if (!isfinite(elem.first))
+      return false;
+
   SAVE_FLAGS(out);
 
   out << count() << '\n'
